@@ -420,7 +420,7 @@ func (m MultiPolygon) PointOnSurface() Point {
 		if point.IsEmpty() {
 			continue
 		}
-		if bisectorWidth > bestWidth {
+		if bestPoint.IsEmpty() || bisectorWidth > bestWidth {
 			bestWidth = bisectorWidth
 			bestPoint = point
 		}
